@@ -354,9 +354,10 @@ def build(seed: int, family: str | None = None, allow_restart: bool = True) -> S
         if rs.rand() < 0.4:
             e.default_label = int(rs.choice([0, -1, 7, 2]))
         shape = rs.randint(7)
+        mix_del2 = mix and rs.rand() < 0.5      # half of the gcmix runs: a single exchange move plus the two-deletions entry below
         if mix:
-            shape = 2
-            e.bias_towards_insert = 0.25
+            shape = 0 if mix_del2 else 2
+            e.bias_towards_insert = 0.5 if mix_del2 else 0.25
         if shape <= 1:
             mc.add_move(e, name="exch")
         elif shape == 2:
@@ -390,6 +391,17 @@ def build(seed: int, family: str | None = None, allow_restart: bool = True) -> S
             d3 = RecDisp(lab.copy(), disp_op(rs, molecular))
             e3 = RecExch(lab.copy(), Translation() if not molecular else TranslationRotation())
             mc.add_move((d3 + e3) if rs.rand() < 0.5 else (e3 + d3), criteria=GrandCanonicalCriteria(), name="disp_exch")
+        if mix_del2 or (not mix and rs.rand() < 0.15):
+            # one trial in which TWO exchange moves delete (a hand-made generic composite), optionally followed by a
+            # displacement: the second deletion and the displacement address atoms that have moved up
+            from quansino.moves.composite import CompositeMove
+
+            ea = RecExch(lab.copy(), Translation() if not molecular else TranslationRotation(), bias_towards_insert=0.0)
+            eb = RecExch(lab.copy(), Translation() if not molecular else TranslationRotation(), bias_towards_insert=float(rs.choice([0.0, 0.0, 0.5])))
+            parts = [ea, eb]
+            if rs.rand() < 0.5:
+                parts.append(RecDisp(lab.copy(), disp_op(rs, molecular)))
+            mc.add_move(CompositeMove(parts), criteria=GrandCanonicalCriteria(), name="del2", probability=0.7)
     elif fam == "gcdrain":
         # a grand-canonical run that tends to EMPTY the system (deletions favoured), with a composite displacement move
         # that is called before and after the last movable particle has gone, and a single one
